@@ -46,6 +46,16 @@ def _witnesses_in(items) -> Optional[List[str]]:
     return out
 
 
+def _is_digit_class(sub) -> bool:
+    items = list(sub)
+    if len(items) != 1:
+        return False
+    op, av = items[0]
+    if op is C.IN:
+        return all((o is C.CATEGORY and a is C.CATEGORY_DIGIT) or (o is C.RANGE and a == (48, 57)) for o, a in av)
+    return False
+
+
 def enumerate_language(tree, max_rep: int = 3, limit: int = 20000) -> Optional[List[str]]:
     """All strings of a *finite* pattern (classes replaced by witnesses), or
     None when the pattern is not finite / uses unsupported constructs."""
@@ -78,6 +88,9 @@ def enumerate_language(tree, max_rep: int = 3, limit: int = 20000) -> Optional[L
             return out
         if op in (C.MAX_REPEAT, C.MIN_REPEAT):
             lo, hi, sub = av
+            if hi is C.MAXREPEAT and _is_digit_class(sub):
+                # \d+ / \d*: a number; two representatives stand for all of them
+                hi = lo + 1
             if hi is C.MAXREPEAT or hi > max_rep:
                 return None
             base = seq(sub)
